@@ -20,6 +20,14 @@ def run(ctx, prop):
                              workers=12, timeout=3000, heap="10g")
         vec = ctx.path("c02-vectors.ndjson")
         vlib.write_ndjson(vec, r.vec)
+        # contextual patterns (context + selector): the search performed by the code selects the node the reference
+        # names, on every small tree; the two variants a refactoring could slip into must be rejected by the model
+        vlib.model_check(ctx, "mc/MC_Contextual.tla", "mc/MC_Contextual_thorough.cfg" if th else "mc/MC_Contextual.cfg",
+                         workers=4, timeout=1200, heap="4g")
+        for v in ("last", "shallowest"):
+            w = vlib.run_tlc(ctx, "mc/MC_Contextual.tla", "mc/MC_Contextual_witness_%s.cfg" % v, workers=2, timeout=600, keep_vec=False)
+            if w.violated != "SelectOK":
+                raise vlib.ToolError("MC_Contextual_witness_%s: the variant is no longer rejected - the model lost its teeth" % v)
         args += ["--vectors2", vec]
         ctx.cov["vectors_exported"] = len(r.vec)
         mine = ("cut-not-matched", "pattern-text-altered")
@@ -38,9 +46,9 @@ def run(ctx, prop):
                 continue
             if case is None:
                 case = vlib.nth_line(rec, f["index"])
-            slim = {k: case.get(k) for k in ("id", "lang", "pattern", "cand", "src", "mode", "holes", "tail", "cs", "gs")}
+            slim = {k: case.get(k) for k in ("id", "lang", "pattern", "selector", "cand", "src", "mode", "holes", "tail", "cs", "gs")}
             slim["out"] = case["outs"][reason[1]]
-            facts = {"reason": reason[0], "strictness": reason[1], "lang": case["lang"], "mode": case["mode"],
+            facts = {"reason": reason[0], "strictness": reason[1], "lang": case["lang"], "mode": case["mode"], "contextual": bool(case.get("ctx")),
                      "panic": case["outs"][reason[1]].get("panic", False)}
             if vlib.report_failure(ctx, facts, {"record": slim, "reason": reason, "seed": ctx.seed, "tier": ctx.tier},
                                    "%s pattern %r at %s: %s" % (case["id"], case["pattern"], reason[1], reason[0])):
@@ -48,6 +56,7 @@ def run(ctx, prop):
     recs = vlib.read_ndjson(rec)
     n_cut = sum(1 for x in recs if x.get("mode") == "cut")
     ctx.cov["cut_records"] = n_cut
+    ctx.cov["contextual_cut_records"] = sum(1 for x in recs if x.get("ctx"))
     ctx.cov["cut_records_discarded_by_premise"] = ctx.cov.get("discarded", 0)
     if prop == "C02" and n_cut and ctx.cov.get("discarded", 0) > 0.5 * n_cut:
         raise vlib.ToolError("C02: more than half of the cut patterns were discarded by the premise (%d of %d): the judgement would be vacuous"
